@@ -260,6 +260,105 @@ Definition file_wf (f : file) : Prop := ascending (map e_key (f_entries f)).
 Definition blocks_agree (bl : list block) : Prop :=
   forall b1 b2 i o1 o2, In b1 bl -> In b2 bl -> In (i, o1) (snd b1) -> In (i, o2) (snd b2) -> o1 = o2.
 
+(* ================= encrypted files: the second "only add, never replace" merge =================
+   Reader::read ends with
+       if document.authenticate_password("").is_ok() { document.decrypt("")?; }
+   For a file whose trailer has Encrypt the tasks above leave the object streams alone ([run_task] with enc = true), so the
+   members appear only here, in Document::decrypt_raw (src/document.rs), on ONE thread:
+     - every object except the encryption dictionary (trailer Encrypt, when it is a reference) goes through
+       encryption::decrypt_object, in the order of the objects map; the first Err ends the load with Err;
+     - then, again in the order of the objects map (a BTreeMap<(number, generation)>), every stream of Type ObjStm is handed
+       to ObjectStream::new; on Ok the pair (object NUMBER of the stream, its members) is appended to a vector, on Err nothing;
+     - pass A over that vector: the members that the cross-reference table places in exactly that container
+       (Compressed{container == number of the stream}) -> entry(id).or_insert; pass B: the remaining members, added only
+       when no object of their number is present (the two passes of the reader, since /repo 959d50f; there is no sort: the
+       vector is in map order);
+     - trailer.remove("Encrypt") (IndexMap::swap_remove), the encryption dictionary object is removed.
+   What decrypt_object and ObjectStream::new compute is data here, like [parsed] for the tasks: the theorems hold for every
+   pair of functions ([c_dec] is C05's subject, [c_objstm] C02's).  ObjectStream::new also decompresses the stream in place;
+   the object streams of the generated encrypted files carry no Filter, the stream object is left as it is. *)
+Definition K_Encrypt := Eval cbv in bs "Encrypt".
+
+Record crypt := mkCrypt {
+  c_opens : bool;                                       (* authenticate_password("") is Ok (then decrypt("") authenticates
+                                                           and decodes the state by the same computation) *)
+  c_dec : oid -> obj -> option obj;                     (* decrypt_object(&state, id, obj): None = Err *)
+  c_objstm : dict -> bytes -> option (list member);     (* ObjectStream::new on a decrypted stream: None = Err,
+                                                           Some l = the pairs its filter_map yields, in index order *)
+}.
+
+(* `for (&id, obj) in self.objects.iter_mut() { if Some(id) == encryption_obj_id { continue; } decrypt_object(..)?; }` *)
+Fixpoint decrypt_all (c : crypt) (eid : option oid) (m : objmap) : option objmap :=
+  match m with
+  | [] => Some []
+  | (id, o) :: m' =>
+    match (if match eid with Some e => oid_eqb id e | None => false end then Some o else c_dec c id o) with
+    | None => None
+    | Some o' => match decrypt_all c eid m' with None => None | Some r => Some ((id, o') :: r) end
+    end
+  end.
+
+(* one object of the map: the block it contributes (keyed by the object number of the stream) *)
+Definition expand_block (c : crypt) (e : oid * obj) : list block :=
+  match snd e with
+  | OStream d ct =>
+    if has_type d K_ObjStm then
+      match c_objstm c d ct with
+      | Some ms => [(fst (fst e), objstm_objects ms)]
+      | None => []
+      end
+    else []
+  | _ => []
+  end.
+Definition expand_blocks (c : crypt) (m : objmap) : list block := flat_map (expand_block c) m.
+
+(* the two passes over blocks taken in the given order ([merge xc bl base] is [merge_in_order xc (sort_blocks bl) base]) *)
+Definition merge_in_order (xc : list (N * N)) (sb : list block) (base : xmap) : xmap :=
+  merge_rest
+    (merge_members base (flat_map (fun b => filter (named xc (fst b)) (snd b)) sb))
+    (flat_map (fun b => filter (fun m => negb (named xc (fst b) m)) (snd b)) sb).
+
+Definition unstrip (m : objmap) : xmap := map (fun e => (fst e, (snd e, None))) m.
+
+(* result of Document::load_mem *)
+Inductive lres :=
+| LDoc (d : doc)
+| LErr.                (* `document.decrypt("")?` failed *)
+
+(* Document::decrypt_raw after its authentication *)
+Definition decrypt_doc (c : crypt) (xc : list (N * N)) (d : doc) : lres :=
+  let eid := match dict_get (d_trailer d) K_Encrypt with Some (ORef i g) => Some (i, g) | _ => None end in
+  match decrypt_all c eid (d_objects d) with
+  | None => LErr
+  | Some m =>
+    let m' := strip (merge_in_order xc (expand_blocks c m) (unstrip m)) in
+    LDoc {| d_version := d_version d; d_binary_mark := d_binary_mark d;
+            d_trailer := dict_swap_remove (d_trailer d) K_Encrypt;
+            d_objects := match eid with Some id => remove m' id | None => m' end;
+            d_max_id := d_max_id d |}
+  end.
+
+(* the end of Reader::read *)
+Definition finish (c : crypt) (f : file) (d : doc) : lres :=
+  if c_opens c then decrypt_doc c (f_compressed f) d else LDoc d.
+
+Definition load_full_seq (c : crypt) (f : file) : lres := finish c f (load_seq f).
+Definition load_full_par (c : crypt) (s : sched) (f : file) : lres := finish c f (load_par s f).
+
+(* the expansion as it was before /repo 959d50f: members of all object streams in map order, entry(id).or_insert,
+   no regard for the cross-reference table nor for other generations of the number *)
+Definition decrypt_doc_old (c : crypt) (d : doc) : lres :=
+  let eid := match dict_get (d_trailer d) K_Encrypt with Some (ORef i g) => Some (i, g) | _ => None end in
+  match decrypt_all c eid (d_objects d) with
+  | None => LErr
+  | Some m =>
+    let m' := strip (merge_members (unstrip m) (flat_map snd (expand_blocks c m))) in
+    LDoc {| d_version := d_version d; d_binary_mark := d_binary_mark d;
+            d_trailer := dict_swap_remove (d_trailer d) K_Encrypt;
+            d_objects := match eid with Some id => remove m' id | None => m' end;
+            d_max_id := d_max_id d |}
+  end.
+
 (* ---- selecting a permutation by indices (used by the runner to enumerate schedules) ---- *)
 Definition permute {A} (p : list nat) (l : list A) : list A :=
   flat_map (fun i => opt_list (nth_error l i)) p.
